@@ -245,12 +245,12 @@ def case_search(rec, max_iters):
             def step(self_, state):
                 eps = self_.step_size
                 if eps not in table:
-                    table[eps] = ["below", "above", "nan", "error"][ctx.decide(4)]
+                    table[eps] = ["below", "above", "mid", "nan", "error"][ctx.decide(5)]
                 tried.append((eps, table[eps]))
                 o = table[eps]
                 if o == "error":
                     raise ConvergenceError("injected")
-                return St({"below": 0.1, "above": 5.0, "nan": math.nan}[o])
+                return St({"below": 0.1, "above": 5.0, "mid": 1.0, "nan": math.nan}[o])  # 'mid': log 2 < 1.0 < 2 log 2
         integ = Integ()
         ad = AD.DualAveragingStepSizeAdapter(max_init_step_size_iters=max_iters)
         try:
@@ -273,11 +273,11 @@ def case_search(rec, max_iters):
             # crossing: the returned size and the previously tried size lie on opposite sides of log 2
             last = tried[-1]
             prev = [t for t in tried[:-1] if t[1] != "error"]
-            if last[0] != eps or last[1] not in ("below", "above"):
+            if last[0] != eps or last[1] not in ("below", "above", "mid"):
                 viol.setdefault("not-last", (f"returned {eps} but last tried {last}", tried))
             elif len(tried) >= 2:
                 p = tried[-2]
-                side = {"below": -1, "above": 1, "nan": 1, "error": 1}
+                side = {"below": -1, "above": 1, "mid": 1, "nan": 1, "error": 1}
                 if side[p[1]] == side[last[1]]:
                     viol.setdefault("no-crossing", (f"returned {eps} ({last[1]} log 2) but the previously tried size {p[0]} was also '{p[1]}'", tried))
             else:
